@@ -235,6 +235,68 @@ Definition direct_spreads (ss : list sel) : list string :=
   flat_map (fun s => match s with SSpread fn false => [fn] | _ => [] end) ss.
 
 (* _parse_type_definition: class skeletons in generation order *)
+(* ---- graphql-core NoFragmentCyclesRule (one of the specified rules ariadne-codegen validates operations with):
+   no fragment reaches itself through fragment spreads, at any depth of its selection set ---- *)
+Fixpoint all_spreads (s : sel) : list string :=
+  match s with
+  | SField _ _ _ sub => flat_map all_spreads sub
+  | SSpread fn _ => [fn]
+  | SInline _ _ sub => flat_map all_spreads sub
+  end.
+Definition spreads_of (ss : list sel) : list string := flat_map all_spreads ss.
+Definition spread_graph (frags : list fragdef) : graph :=
+  map (fun fd => (fr_name fd, spreads_of (fr_sel fd))) frags.
+Definition no_fragment_cycles (frags : list fragdef) : bool :=
+  forallb (fun fd => negb (mem (fr_name fd) (frag_bases (spread_graph frags) (fr_name fd)))) frags.
+
+(* the recursive call of _parse_type_definition, abstracted: go_related / go_fields are the two loops of
+   _parse_type_definition / _parse_field_selection_set_types over it *)
+Definition ptd_fun := string -> string -> list sel -> list string -> st -> option (list cls * st).
+
+Fixpoint go_related (rec : ptd_fun) (rel : list (string * string)) (sub : list sel) (ex : list string) (s : st)
+  : option (list cls * st) :=
+  match rel with
+  | [] => Some ([], s)
+  | (cn', tn') :: r =>
+      match rec cn' tn' sub ex s with
+      | None => None
+      | Some (c1, s1) =>
+          match go_related rec r sub ex s1 with
+          | None => None
+          | Some (c2, s2) => Some ((c1 ++ c2)%list, s2)
+          end
+      end
+  end.
+
+Fixpoint go_fields (rec : ptd_fun) (f : nat) (sch : aschema) (frags : list fragdef) (snake : bool)
+                   (cn tn : string) (fs : list sel) (s : st) : option (list cls * st) :=
+  match fs with
+  | [] => Some ([], s)
+  | SField al nm mx sub :: r =>
+      let key := match al with Some a => a | None => nm end in
+      let cn' := (cn ++ pascal_s (field_py_name snake key))%string in
+      let s0 := {| st_public := st_public s; st_mix := st_mix s; st_unp := st_unp s;
+                   st_imports := (st_imports s ++ mx)%list |} in
+      let rel :=
+        match field_type sch tn nm with
+        | Some T => match sub with [] => Some [] | _ => related f sch frags cn' T sub end
+        | None => if String.eqb nm typename_field then Some [] else None  (* ParsingError *)
+        end in
+      match rel with
+      | None => None
+      | Some rl =>
+          match go_related rec rl sub (extra_bases mx) s0 with
+          | None => None
+          | Some (c1, s1) =>
+              match go_fields rec f sch frags snake cn tn r s1 with
+              | None => None
+              | Some (c2, s2) => Some ((c1 ++ c2)%list, s2)
+              end
+          end
+      end
+  | _ :: r => go_fields rec f sch frags snake cn tn r s      (* resolve returns fields only *)
+  end.
+
 Fixpoint ptd (fuel : nat) (sch : aschema) (frags : list fragdef) (g : graph) (snake : bool)
              (cn tn : string) (ss : list sel) (extra : list string) (s : st) : option (list cls * st) :=
   match fuel with
@@ -250,50 +312,7 @@ Fixpoint ptd (fuel : nat) (sch : aschema) (frags : list fragdef) (g : graph) (sn
             let me := {| c_name := cn; c_type := tn; c_bases := class_bases g mix extra;
                          c_frags := sort_uniq mix; c_direct := direct_spreads ss;
                          c_bfrags := sort_uniq (reduced g mix) |} in
-            let go_related :=
-              (fix gr (rel : list (string * string)) (sub : list sel) (ex : list string) (s : st)
-                 : option (list cls * st) :=
-                 match rel with
-                 | [] => Some ([], s)
-                 | (cn', tn') :: r =>
-                     match ptd f sch frags g snake cn' tn' sub ex s with
-                     | None => None
-                     | Some (c1, s') =>
-                         match gr r sub ex s' with
-                         | None => None
-                         | Some (c2, s'') => Some ((c1 ++ c2)%list, s'')
-                         end
-                     end
-                 end) in
-            let go_fields :=
-              (fix gf (fs : list sel) (s : st) : option (list cls * st) :=
-                 match fs with
-                 | [] => Some ([], s)
-                 | SField al nm mx sub :: r =>
-                     let key := match al with Some a => a | None => nm end in
-                     let cn' := (cn ++ pascal_s (field_py_name snake key))%string in
-                     let s' := {| st_public := st_public s; st_mix := st_mix s; st_unp := st_unp s;
-                                  st_imports := (st_imports s ++ mx)%list |} in
-                     let rel :=
-                       match field_type sch tn nm with
-                       | Some T => match sub with [] => Some [] | _ => related f sch frags cn' T sub end
-                       | None => if String.eqb nm typename_field then Some [] else None  (* ParsingError *)
-                       end in
-                     match rel with
-                     | None => None
-                     | Some rl =>
-                         match go_related rl sub (extra_bases mx) s' with
-                         | None => None
-                         | Some (c1, s'') =>
-                             match gf r s'' with
-                             | None => None
-                             | Some (c2, s''') => Some ((c1 ++ c2)%list, s''')
-                             end
-                         end
-                     end
-                 | _ :: r => gf r s      (* resolve returns fields only *)
-                 end) in
-            match go_fields fields s1 with
+            match go_fields (ptd f sch frags g snake) f sch frags snake cn tn fields s1 with
             | None => None
             | Some (extras, s2) => Some (me :: extras, s2)
             end
@@ -555,6 +574,7 @@ Definition sPackage (p : package) : sexp :=
    (toposort table (dict...) (names...) oracle-table)              -> (some (order...)) | none
    (work table (start names...))                                   -> (some ((names...) (generated...))) | none
    (sorted (names...))                                             -> (names...)   [K2: Python sorted()]
+   (nocycles (frag...))                                            -> t | f        [K2: NoFragmentCyclesRule]
    (pascal s) *)
 Definition run_fragments (e : sexp) : sexp :=
   match e with
@@ -575,6 +595,8 @@ Definition run_fragments (e : sexp) : sexp :=
           | Some (a, b) => L [A "some"; L [sStrs a; sStrs b]]
           | None => A "none" end
       | _, _ => sErr "work args" end
+  | L [A "nocycles"; fr] =>
+      match dList dFrag fr with Some fs => sB (no_fragment_cycles fs) | None => sErr "nocycles args" end
   | L [A "sorted"; ns] => match dStrs ns with Some n => sStrs (sort_uniq n) | None => sErr "sorted args" end
   | L [A "pascal"; A s] => A (pascal_s s)
   | _ => sErr "fragments: bad command"
